@@ -31,6 +31,9 @@ type reallocCase struct {
 	MemDelta int64            `json:"mem_delta"`
 	// AlsoBind: the request says cpu-bind: true next to keep-cpu-bind: true (a client that always states what it wants)
 	AlsoBind bool `json:"request_also_says_cpu_bind,omitempty"`
+	// KeepAs: how the request spells the switch - a switch that is present counts as on whatever its (non-boolean)
+	// value: 0 = true, 1 = "true", 2 = "yes", 3 = 1, 4 = ""
+	KeepAs int `json:"keep_cpu_bind_spelled_as,omitempty"`
 }
 
 func coreSet(m map[string]int) string {
@@ -127,7 +130,12 @@ func TestC33(t *testing.T) {
 			var resp *plugintypes.CalculateReallocResponse
 			var err error
 			jr.Put(c)
-			g := guard(guardPatience, func() { resp, err = pl.CalculateRealloc(ctx, node, c.Workload.Raw, d.raw()) })
+			req := d.raw()
+			if c.KeepAs > 0 {
+				req["keep-cpu-bind"] = []any{true, "true", "yes", 1, ""}[c.KeepAs%5]
+				rec.Count("requests_with_the_switch_spelled_as_a_non_boolean", 1)
+			}
+			g := guard(guardPatience, func() { resp, err = pl.CalculateRealloc(ctx, node, c.Workload.Raw, req) })
 			jr.Clear()
 			if g.panicked || g.hung {
 				rec.Skip("panic/hang in CalculateRealloc (reported under C06)")
@@ -232,7 +240,7 @@ func TestC33(t *testing.T) {
 					continue
 				}
 				others := append(append([]placedWorkload{}, placed[:k]...), placed[k+1:]...)
-				judge(&reallocCase{Node: cur, Workload: w, Others: others, MemDelta: md, AlsoBind: (k+int(md/100))%2 != 0}, 1)
+				judge(&reallocCase{Node: cur, Workload: w, Others: others, MemDelta: md, AlsoBind: (k+int(md/100))%2 != 0, KeepAs: map[bool]int{false: 0, true: 1 + (k+len(placed))%4}[(k+int(md/100)+3)%3 == 0]}, 1)
 			}
 		}
 	}
